@@ -22,18 +22,29 @@ import WpModel.Model.Stacking
 namespace Wp.Stacking
 open Wp Wp.Gen
 
+inductive Role where
+  | bg | canvas | border | outline | text | colBg | replaced | collapsedBorders
+  deriving Repr, DecidableEq, BEq, Inhabited
+
+/-- Which clip path: enough to say which rectangle / rounded box the drawing code must have used. -/
+inductive Clip where
+  | viewport                          -- `page.rounded_padding_box()`, for the root element (#35)
+  | clipProp (id : Nat)               -- the `clip` rectangle of an absolutely positioned box
+  | overflow (id : Nat)               -- `box.rounded_padding_box()`
+  | bgBoxes (role : Role) (id : Nat)  -- the clipped boxes of the background's last layer
+  | bgArea (role : Role) (id : Nat)   -- the painting area of the background's last layer
+  | borderSide (id : Nat)             -- `clip_border_segment` of one border side
+  | outlineSide (id : Nat)            -- `clip_border_segment` of one outline side
+  deriving Repr, DecidableEq, BEq, Inhabited
+
 /-- Graphics environment of an item. -/
 structure Env where
   alphas : List Rat := []      -- opacity groups it is drawn in, outermost first
   transforms : List Nat := []  -- codes of the (regular) matrices applied, outermost first
-  clips : Nat := 0             -- clip paths in effect
+  clips : List Clip := []      -- clip paths in effect, outermost first
   deriving Repr, DecidableEq, BEq, Inhabited
 
-def Env.clip (e : Env) : Env := { e with clips := e.clips + 1 }
-
-inductive Role where
-  | bg | canvas | border | outline | text | colBg | replaced | collapsedBorders
-  deriving Repr, DecidableEq, BEq, Inhabited
+def Env.clip (e : Env) (c : Clip) : Env := { e with clips := e.clips ++ [c] }
 
 inductive Item where
   | paint (role : Role) (id : Nat) (code : Nat) (env : Env)
@@ -47,7 +58,9 @@ def drawBackground (role : Role) (id : Nat) (bg : Option (Option Nat)) (clipBox 
   match bg with
   | none => []
   | some none => []
-  | some (some c) => [.paint role id c (if clipBox then env.clip.clip else env.clip)]
+  | some (some c) =>
+    [.paint role id c (if clipBox then (env.clip (.bgBoxes role id)).clip (.bgArea role id)
+      else env.clip (.bgArea role id))]
 
 /-- `draw_border(stream, box)`: hidden boxes and boxes without border widths paint nothing; four
 non-zero sides of one solid colour are one path ("simple case"), otherwise every non-zero side is
@@ -58,7 +71,7 @@ def drawBorder (a : Attrs) (env : Env) : List Item :=
   | none => []
   | some c =>
     if a.borderSides = 4 then [.paint .border a.id c env]
-    else List.replicate a.borderSides (.paint .border a.id c env.clip)
+    else List.replicate a.borderSides (.paint .border a.id c (env.clip (.borderSide a.id)))
 
 /-- The decoration of one box: `draw_background(stream, box.background)`, `draw_border(stream, box)`. -/
 def decoration (a : Attrs) (env : Env) : List Item :=
@@ -85,45 +98,58 @@ def attrErr (site : String) : List Item := [.raise (.noneAttribute site)]
 /-- Cells of one row for `draw_table`. -/
 def tableCells (row : Node) : List Node := (row.children?).getD []
 
-/-- Backgrounds of `draw_table`: table, column groups and columns, then row groups, rows, cells. -/
-def drawTableBackgrounds (t : Attrs) (groups : List Node) (env : Env) : List Item :=
-  drawBackground .bg t.id t.bg true env ++
+/-- `draw_table`, innermost loop of the backgrounds: one cell. -/
+def cellBackground (t : Attrs) (env : Env) (c : Node) : List Item :=
+  match c.attrs? with
+  | some ca =>
+    if t.collapse || ca.emptyCellsShow || !ca.cellEmpty then drawBackground .bg ca.id ca.bg true env
+    else []
+  | none => attrErr "draw_table.cell"
+
+/-- `draw_table`, backgrounds of one row and its cells. -/
+def rowBackgrounds (t : Attrs) (env : Env) (r : Node) : List Item :=
+  match r.attrs?, r.children? with
+  | some ra, some cells =>
+    drawBackground .bg ra.id ra.bg true env ++ cells.flatMap (cellBackground t env)
+  | _, _ => attrErr "draw_table.row"
+
+/-- `draw_table`, backgrounds of one row group, its rows and their cells. -/
+def groupBackgrounds (t : Attrs) (env : Env) (g : Node) : List Item :=
+  match g.attrs?, g.children? with
+  | some ga, some rows =>
+    drawBackground .bg ga.id ga.bg true env ++ rows.flatMap (rowBackgrounds t env)
+  | _, _ => attrErr "draw_table.row_group"
+
+/-- Backgrounds of the column groups and columns. -/
+def columnBackgrounds (t : Attrs) (env : Env) : List Item :=
   t.colGroups.flatMap (fun g =>
     drawBackground .colBg g.id g.bg true env ++
-    g.cols.flatMap (fun c => drawBackground .colBg c.1 c.2 true env)) ++
-  groups.flatMap (fun g =>
-    match g.attrs?, g.children? with
-    | some ga, some rows =>
-      drawBackground .bg ga.id ga.bg true env ++
-      rows.flatMap (fun r =>
-        match r.attrs?, r.children? with
-        | some ra, some cells =>
-          drawBackground .bg ra.id ra.bg true env ++
-          cells.flatMap (fun c =>
-            match c.attrs? with
-            | some ca =>
-              if t.collapse || ca.emptyCellsShow || !ca.cellEmpty then
-                drawBackground .bg ca.id ca.bg true env
-              else []
-            | none => attrErr "draw_table.cell")
-        | _, _ => attrErr "draw_table.row")
-    | _, _ => attrErr "draw_table.row_group")
+    g.cols.flatMap (fun c => drawBackground .colBg c.1 c.2 true env))
+
+/-- Backgrounds of `draw_table`: table, column groups and columns, then row groups, rows, cells. -/
+def drawTableBackgrounds (t : Attrs) (groups : List Node) (env : Env) : List Item :=
+  drawBackground .bg t.id t.bg true env ++ columnBackgrounds t env ++
+  groups.flatMap (groupBackgrounds t env)
+
+/-- `draw_table`, innermost loop of the borders: one cell. -/
+def cellBorder (env : Env) (c : Node) : List Item :=
+  match c.attrs? with
+  | some ca => if ca.emptyCellsShow || !ca.cellEmpty then drawBorder ca env else []
+  | none => attrErr "draw_table.cell"
+
+def rowBorders (env : Env) (r : Node) : List Item :=
+  match r.children? with
+  | some cells => cells.flatMap (cellBorder env)
+  | none => attrErr "draw_table.row"
+
+def groupBorders (env : Env) (g : Node) : List Item :=
+  match g.children? with
+  | some rows => rows.flatMap (rowBorders env)
+  | none => attrErr "draw_table.row_group"
 
 /-- Borders of `draw_table` (separate borders model). -/
 def drawTableBorders (t : Attrs) (groups : List Node) (env : Env) : List Item :=
-  drawBorder t env ++
-  groups.flatMap (fun g =>
-    match g.children? with
-    | some rows =>
-      rows.flatMap (fun r =>
-        match r.children? with
-        | some cells =>
-          cells.flatMap (fun c =>
-            match c.attrs? with
-            | some ca => if ca.emptyCellsShow || !ca.cellEmpty then drawBorder ca env else []
-            | none => attrErr "draw_table.cell")
-        | none => attrErr "draw_table.row")
-    | none => attrErr "draw_table.row_group")
+  drawBorder t env ++ groups.flatMap (groupBorders env)
 
 /-- `draw_table(stream, table)`. -/
 def drawTable (t : Attrs) (groups : List Node) (env : Env) : List Item :=
@@ -141,24 +167,29 @@ def drawBlock (n : Node) (env : Env) : List Item :=
 /-- The four sides of `draw_outline` for one box (each side in its own clip). -/
 def ownOutline (a : Attrs) (env : Env) : List Item :=
   match a.outline with
-  | some c => if a.visible then List.replicate 4 (.paint .outline a.id c env.clip) else []
+  | some c => if a.visible then List.replicate 4 (.paint .outline a.id c (env.clip (.outlineSide a.id))) else []
   | none => []
 
 /-- Does the singular-transform early return apply, and the environment inside the context's
 outer `q … Q`: viewport clip for the root element, `clip`, opacity group, transform. -/
 def ctxEnv (a : Attrs) (pageOverflowVisible : Bool) (env : Env) : Env :=
-  let e1 := if a.isRoot && !pageOverflowVisible then env.clip else env
-  let e2 := if a.absPos && a.clipProp then e1.clip else e1
+  let e1 := if a.isRoot && !pageOverflowVisible then env.clip .viewport else env
+  let e2 := if a.absPos && a.clipProp then e1.clip (.clipProp a.id) else e1
   let e3 := if a.opacity < 1 then { e2 with alphas := e2.alphas ++ [a.opacity] } else e2
   match a.matrix with
   | .regular code => { e3 with transforms := e3.transforms ++ [code] }
   | _ => e3
 
+/-- `draw_replacedbox(stream, box)`: nothing for an invisible box (boxes of zero size are not
+generated: `not box.width or not box.height`, `draw_width <= 0` are not modelled). -/
+def drawReplaced (a : Attrs) (env : Env) : List Item :=
+  if !a.visible then [] else [.paint .replaced a.id 0 env]
+
 /-- `draw_inline_level` on a box, given what the children loop paints. -/
 def inlBoxWith (a : Attrs) (kidsItems : Env → List Item) (env : Env) : List Item :=
   decoration a env ++
   (if a.kind.dilInlineOrLine then kidsItems env
-   else if a.kind.dilInlineReplaced then [.paint .replaced a.id 0 env]
+   else if a.kind.dilInlineReplaced then drawReplaced a env
    else if !a.kind.dilText then [.raise (.assertFailed "draw_inline_level.TextBox")]
    else drawText a env)
 
@@ -175,13 +206,14 @@ def lastIsLine (kids : List Node) : Bool :=
 
 /-- Point 7 for one block, given what `for child in block.children: draw_inline_level(child)` paints. -/
 def point7With (a : Attrs) (kids : List Node) (lines : Env → List Item) (env : Env) : List Item :=
-  if a.kind.drawReplaced then [.paint .replaced a.id 0 env]
+  if a.kind.drawReplaced then drawReplaced a env
   else if lastIsLine kids then lines env else []
 
 /-- The environment of the inner `q … Q` of `draw_stacking_context`: the overflow clip, which the
 page box never gets. -/
 def innerEnv (a : Attrs) (pov : Bool) (env : Env) : Env :=
-  if !a.overflowVisible && !a.kind.drawPage then (ctxEnv a pov env).clip else ctxEnv a pov env
+  if !a.overflowVisible && !a.kind.drawPage then (ctxEnv a pov env).clip (.overflow a.id)
+  else ctxEnv a pov env
 
 /-- The body of `draw_stacking_context` once the context's box is known to be a box; the
 arguments are what the loops over the context's lists paint in a given environment. -/
@@ -191,7 +223,7 @@ def paintBodyWith (pov : Bool) (a : Attrs)
   let e := ctxEnv a pov env
   -- Point 2
   (if a.kind.drawOwnDecoration then decoration a e else []) ++
-  (let e1 := if !a.overflowVisible && !a.kind.drawPage then e.clip else e
+  (let e1 := if !a.overflowVisible && !a.kind.drawPage then e.clip (.overflow a.id) else e
    -- Points 3, 4, 5
    neg e1 ++ blocks e1 ++ floats e1 ++
    -- Point 6
